@@ -528,7 +528,7 @@ class Lane:
         self.n_gc += 1
         if exc is not None:
             self.sim.probe("gc-raised")
-            where = self.in_call_name or "collect_trash"
+            where = self.sim.cur_opname or "collect_trash"
             self.violate("C12", "operation-raised", f"collect_trash/{self.backend}/{type(exc).__name__}",
                          f"maintenance pass (during {where}) raised {exc!r}")
             return
@@ -699,10 +699,6 @@ class Lane:
             self.sim.probe("audit-refused")
             return
         self.judge_store_view(list(resp.data_objects), opname, target, set(ALL_TYPES), "an unfiltered request for all types")
-
-    @property
-    def in_call_name(self):
-        return self.in_call
 
     # ---------------------------------------------------------------- request builders
     def _location(self, lat, lon, alt, ell=None, radius=0, rel=1):
@@ -1296,10 +1292,6 @@ class Lane:
 
 
 # ------------------------------------------------------------------------------------------ 4. the simulation
-class _C:
-    """Lazy namespace of the LDM classes (imported from the tree under test at run time)."""
-
-
 def _load_classes():
     import flexstack.facilities.local_dynamic_map.ldm_classes as lc
     return lc
@@ -1607,7 +1599,7 @@ def gen_plan(run_seed: int, tier: str, prop: str) -> dict:
     g = _Gen(r, prop, tier)
     half = lambda p=0.5: r.random() < p      # noqa: E731
     knobs = {"updates": half(0.25 if prop == "C14" else 0.5), "deletes": half(), "near": half(), "bits": half(),
-             "ellipse": half(), "order_tuple": half(), "order_lack": half(), "mixed_dir": half(), "lack": half(),
+             "ellipse": half(), "order_tuple": False, "order_lack": half(), "mixed_dir": half(), "lack": half(),
              "cross_app": half(0.3), "past_ts": half(), "unreg": half(0.7)}
     if prop == "C13":
         backends = ["Dictionary", "TinyDB"]
